@@ -21,6 +21,8 @@ pub struct GmWorld<B: Bitmap + 'static> {
     pub model: Vec<Vec<u8>>,
     pub ptrs: Vec<*mut u8>,
     pub files: Vec<Option<File>>,
+    /// regions taken out of the map by remove_region and kept alive for a later insert_region
+    pub unplugged: Vec<(RegSpec, Vec<u8>, *mut u8, Option<File>, std::sync::Arc<GuestRegionMmap<B>>)>,
 }
 
 pub fn memfd(len: u64) -> File {
@@ -104,7 +106,42 @@ impl<B: Bitmap + 'static> GmWorld<B> {
             ptrs.push(p);
             model.push(m);
         }
-        GmWorld { gm, regs, model, ptrs, files }
+        GmWorld { gm, regs, model, ptrs, files, unplugged: Vec::new() }
+    }
+
+    fn reregister(&self) {
+        cx().clear_ranges();
+        for (i, spec) in self.regs.iter().enumerate() {
+            cx().add_range(self.ptrs[i] as usize, spec.size.div_ceil(4096) * 4096, i as u32, true);
+        }
+    }
+
+    /// Derive the map without region `i` (remove_region); the region handle is kept for later.
+    pub fn unplug(&mut self, i: usize) -> Result<(), String> {
+        let spec = self.regs[i].clone();
+        let (m, arc) = self.gm.remove_region(GuestAddress(spec.base), spec.size as u64).map_err(|e| format!("{:?}", e))?;
+        self.gm = m;
+        self.regs.remove(i);
+        let model = self.model.remove(i);
+        let ptr = self.ptrs.remove(i);
+        let file = self.files.remove(i);
+        self.unplugged.push((spec, model, ptr, file, arc));
+        self.reregister();
+        Ok(())
+    }
+
+    /// Derive the map with the last unplugged region inserted again (insert_region).
+    pub fn replug(&mut self) -> Result<(), String> {
+        let Some((spec, model, ptr, file, arc)) = self.unplugged.pop() else { return Ok(()) };
+        let m = self.gm.insert_region(arc).map_err(|e| format!("{:?}", e))?;
+        self.gm = m;
+        let pos = self.regs.iter().position(|r| r.base > spec.base).unwrap_or(self.regs.len());
+        self.regs.insert(pos, spec);
+        self.model.insert(pos, model);
+        self.ptrs.insert(pos, ptr);
+        self.files.insert(pos, file);
+        self.reregister();
+        Ok(())
     }
 
     pub fn find(&self, addr: u64) -> Option<(usize, usize)> {
@@ -183,7 +220,12 @@ impl<B: Bitmap + 'static> GmWorld<B> {
 
     pub fn teardown(self) {
         cx().clear_ranges();
-        in_mode(Mode::Setup, || drop(self.gm));
+        let GmWorld { gm, unplugged, files, .. } = self;
+        in_mode(Mode::Setup, || {
+            drop(gm);
+            drop(unplugged);
+        });
+        drop(files);
     }
 }
 
